@@ -229,10 +229,30 @@ func runC04(rt *rapid.T, c c04Case) c04Result {
 	for i := range timerCalls {
 		timerCalls[i] = map[int64]int{}
 	}
+	// doubledOnPrePrepare: per member and round, how often the round's timer was re-created because a
+	// justified PRE-PREPARE for that round arrived (the eager timer then doubles the deadline)
+	doubledOnPrePrepare := make([]map[int64]int, n)
+	for i := range doubledOnPrePrepare {
+		doubledOnPrePrepare[i] = map[int64]int{}
+	}
 	hooks := qbftsim.Hooks{
 		NewTimer: func(p *qbftsim.Proc, round int64) (<-chan time.Time, func()) {
+			lastRule := cq.UponNothing
+			if s != nil {
+				s.Lock()
+				for i := len(s.Rules) - 1; i >= 0; i-- {
+					if s.Rules[i].Proc == p.ID {
+						lastRule = s.Rules[i].Rule
+						break
+					}
+				}
+				s.Unlock()
+			}
 			timerMu.Lock()
 			timerCalls[p.ID][round]++
+			if timerCalls[p.ID][round] >= 2 && lastRule == cq.UponJustifiedPrePrepare {
+				doubledOnPrePrepare[p.ID][round]++
+			}
 			timerMu.Unlock()
 			return timers[p.ID].Timer(round)
 		},
@@ -414,14 +434,22 @@ func runC04(rt *rapid.T, c c04Case) c04Result {
 	// non-faulty member restarted (doubled) its eager timer on a justified PRE-PREPARE while another
 	// non-faulty member had already left that round on its first deadline.
 	splitDoubling := false
+	leftOnTimeout := map[[2]int64]bool{} // (member, round): the member left that round because its round timer fired
+	s.Lock()
+	for _, rc := range s.RoundChanges {
+		if rc.Rule == cq.UponRoundTimeout {
+			leftOnTimeout[[2]int64{rc.Proc, rc.From}] = true
+		}
+	}
+	s.Unlock()
 	timerMu.Lock()
 	for _, a := range nonFaulty {
-		for r, calls := range timerCalls[a] {
-			if calls < 2 {
+		for r, calls := range doubledOnPrePrepare[a] {
+			if calls < 1 {
 				continue
 			}
 			for _, b := range nonFaulty {
-				if b != a && timerCalls[b][r] <= 1 && timerCalls[b][r+1] >= 1 {
+				if b != a && timerCalls[b][r] <= 1 && leftOnTimeout[[2]int64{b, r}] {
 					splitDoubling = true
 				}
 			}
